@@ -10,6 +10,9 @@ CHECKS = {
  "C14": dict(technique="TLA+ spec Scalars (register machine over exact rings, BigNum limb arithmetic in TLA+); TLC exhaustive on small complete domains with expected values replayed on all 16 scalar types in six operator forms; recorded histories validated by Trace_Scalars",
              text="TLC model-checks the bignum and ring libraries against the ring axioms, enumerates every operand pair/operation of the small domains with the canonical expected value (replayed on every scalar type and operator form), and validates seeded histories of the real types (values to 10^300+, machine ints near their limits) event by event: every result must be the exact ring element in canonical form and every comparison the mathematical answer.",
              note="Trusted: TLC, BigNum.tla/Rings.tla (model-checked), decimal->limb chunking in the harness, Bezout witnesses re-multiplied by TLC. Machine-integer ops only inside the representable envelope.", design="§3 C14"),
+ "C20": dict(technique="TLA+ spec Cli (decision table Outcome(cmd,-t,-c,-m,-r,input class) over tokenised -c values + grammar of table cells); TLC exhaustive on the whole option product; every product point run on the freshly built ykh binary, stdout lexed and compared with a direct library call; recorded invocations validated by Trace_Cli",
+             text="TLC checks the decision table on the complete option product (every point has exactly one outcome, error points never show a table, theorems of the table, round trip of the cell grammar); TLC then prints the product with the demanded outcome and the library call (ring, h, t, flags), the harness runs the freshly built binary at every point and at seeded random instances, lexes the printed table and Trace_Cli requires exit/stdout class to match and the printed non-zero cells to be exactly the groups KhHomology / into_bigraded / KhComplex::gen_grid return at the same (i,j).",
+             note="Trusted: TLC, the Rust lexer of table cells, process spawning. Only the unicode format and -t -c -m -r. ckh's generator table is compared exactly only where the simplified complex is determined by the parameters (fields, homogeneous h,t); elsewhere by ring, well-formedness and Euler characteristic.", design="§3 C20"),
 }
 PENDING = "not yet bound to the specification in this round (see DESIGN.md section 3 for the planned spec and binding)"
 m = {
